@@ -609,3 +609,15 @@ V('C20-step-from-event-whatever-follows', 'C20', [(_RS, "if isinstance(e1, LLVMR
 V('C14-esubst-replayed-without-plug', 'C14', [(_DES, "interpreter.esubst(evar_id, pattern, plug)", "interpreter.esubst(evar_id, pattern)")], names='reader-slots')
 V('C15-antecedent-remembered-after-the-pop-is-fine', 'C16', [(_TR, "                    saved_antecedents.append((str(stack()[-1]), stack()[-1]))\n                    interpreter().save(str(stack()[-1]), stack()[-1])\n                    interpreter().pop(stack()[-1])",
                                                               "                    top_ = stack()[-1]\n                    interpreter().save(str(top_), top_)\n                    interpreter().pop(top_)\n                    saved_antecedents.append((str(top_), top_))")], expect='silent')
+
+# ---- round 8 (rules added for the round-8 seeds, each also fires on a one-line change of the base tree)
+V('C04-claim-phase-written-to-the-proof-stream', 'C04', [(_IO, "        self.out = self.claim_out", "        self.out = self.proof_out")], names='writes-to-its-own-stream')
+V('C20-other-axioms-take-no-ordinal', 'C20', [(_LS, "                                next(module.counter)", "                                pass")], names='ordinals-in-sentence-order')
+V('C20-imports-not-transitive', 'C20', [(_LS, "            modules.append(module)\n            modules.extend(module.modules)", "            modules.append(module)")], names='imports-are-transitive')
+V('C20-axiom-lookup-in-direct-imports-only', 'C20', [(_LS, "        for module in self.modules:\n            try:\n                axiom = module.get_axiom(ordinal)\n                return axiom\n            except ValueError:\n                continue",
+                                                     "        for module in self._imported_modules:\n            if ordinal in module._axioms:\n                return module._axioms[ordinal]")], names='axiom-lookup-reaches-every-import')
+V('C17-named-statements-only-when-variables-are-in-use', 'C17', [(_SLI, "    for lemma_name, lemma_statement in cut_antecedents.items():\n        if lemma_name in needed_lemmas or (\n            isinstance(lemma_statement, FloatingStatement) and lemma_statement.metavariable in needed_metavariables\n        ):\n            statements.append(lemma_statement)",
+                                                                 "    if needed_metavariables:\n      for lemma_name, lemma_statement in cut_antecedents.items():\n        if lemma_name in needed_lemmas or (\n            isinstance(lemma_statement, FloatingStatement) and lemma_statement.metavariable in needed_metavariables\n        ):\n            statements.append(lemma_statement)")],
+  names='named-statements-emitted-unconditionally')
+V('C18-twin-metavars-field-tested-for-truth', 'C18', [(_TR, "            if len(axiom.metavars) > 0:", "            if axiom.metavars:")], expect='silent')
+V('C16-twin-metavars-field-tested-for-truth', 'C16', [(_TR, "            if len(axiom.metavars) > 0:", "            if axiom.metavars:")], expect='silent')
